@@ -28,6 +28,10 @@ def run_batch(ctx, n, with_model=True):
         if prog.fields:
             e = dict(envs[0]); e.pop(sorted(e)[0]); envs.append(e)
         envs.append(dict(envs[0], zz_extra=1))
+        if prog.splitters and prog.splitters[0] not in prog.cond_fields():
+            # values that compare equal in Python but print differently, one after the other on the same evaluator
+            for v in (1, 1.0, True, 0, 0.0, False):
+                envs.append(dict(envs[0], **{prog.splitters[0]: v}))
         cases.append((prog, text, envs))
     models = [None] * len(cases)
     if with_model and ctx.driver_ok:
